@@ -106,7 +106,24 @@ def run(prop, tier):
                      "cfg": {"cols": ["a", "b"], "epn": 0, "cache": 0, "log_nodes": 0, "log_reads": 0, "inmem": 1, "fresh_process": 1,
                              "same_prefix": 1 if same else 0, "after": after},
                      "clients": clients})
-    vf.log("%d concurrent scenarios (2/4/8 goroutines; %d on the process-wide in-memory bucket, fresh process each), race detector on" % (len(scen), nmem))
+    # imposed schedules at request grain (sched.go, the schedules of Store.tla's grain): every connection stops before each
+    # API call and before each root-level storage request; the scheduler lets ONE connection run at a time while the others
+    # stay parked wherever they are - in particular in the middle of the storage I/O of an open, a commit or a refresh. A
+    # connection that cannot finish its step alone (it waits for something a parked connection holds) is a deadlock under
+    # that schedule: the harness reports `hang` after 30 s, the monitor reports C19_NoPanicNoHang. The Go scheduler almost
+    # never produces these overlaps with an in-memory store, so they are imposed.
+    from store_family import random_scenario
+    nsched = 40 if tier == "quick" else 600
+    for i in range(nsched):
+        sc = random_scenario(i, rng)
+        sc["id"] = "c19-sched-%d" % i
+        sc["features"] = ["imposed_schedule"]
+        # begin with every connection parked inside its first step (open) in turn, then the random schedule
+        ids = sorted(sc["clients"])
+        rng.shuffle(ids)
+        sc["schedule"] = [c for c in ids for _ in range(rng.choice([1, 2, 3]))] + sc["schedule"]
+        scen.append(sc)
+    vf.log("%d concurrent scenarios (2/4/8 goroutines; %d on the process-wide in-memory bucket, fresh process each) + %d imposed request-grain schedules, race detector on" % (len(scen) - nsched, nmem, nsched))
     traces, info = vf.run_harness(binary, scen, workdir, shards=4)
     vf.log("executed %d scenarios in %.1fs (crashes=%d hangs=%d)" % (len(scen), info["wall"], info["crashes"], info["hangs"]))
     viols, events, mstates, mwall = vf.run_monitor(workdir, traces, [prop])
@@ -115,8 +132,9 @@ def run(prop, tier):
     sample = scen[0]
     coverage = {
         "evaluations": len(scen),
-        "distinct_nontrivial": len({json.dumps(s["clients"], sort_keys=True) for s in scen if len(s["clients"]) >= 2}),
-        "rule": "seeded random statement streams on 2/4/8 goroutines (same prefix 60%, different prefixes 40%), executed once each under the race detector; distinct = distinct stream sets with >= 2 connections. Thread schedules are whatever the Go scheduler produced (not enumerated).",
+        "distinct_nontrivial": len({json.dumps([s["clients"], s.get("schedule")], sort_keys=True) for s in scen if len(s["clients"]) >= 2}),
+        "rule": "seeded random statement streams on 2/4/8 goroutines (same prefix 60%, different prefixes 40%), executed once each under the race detector; distinct = distinct stream sets with >= 2 connections. Thread schedules of those are whatever the Go scheduler produced (not enumerated); in addition " + str(nsched) + " random programs of 2-4 connections run under imposed request-grain schedules (one connection runs at a time, the others parked inside their storage requests).",
+        "imposed_schedules": nsched,
         "samples": [{"scenario": sample["id"], "cfg": {k: v for k, v in sample["cfg"].items() if k != "after"}, "client_t0": sample["clients"]["t0"][:8]}],
         "traces_validated_against_impl": len(scen), "trace_events_validated": events, "states": mstates, "transitions": mstates,
         "race_detector": True, "harness": info, "exhaustive": False,
